@@ -362,7 +362,25 @@ def fam_panic_help(rng):
     return p
 
 
+def fam_aba(rng):
+    """address reuse under a fast-path reader: the debt of a freed address is paid for a newer object (C07, C01)"""
+    th = []
+    nr = rng.choice([1, 1, 2])
+    for t in range(1, 1 + nr):
+        ops = []
+        for i in range(rng.randrange(1, 3)):
+            g = t * R + i
+            ops += [{"op": "load", "c": 0, "g": g}, {"op": "deref_g", "g": g}]
+            if rng.random() < 0.7:
+                ops.append({"op": "drop_g", "g": g})
+        th.append(ops)
+    for t in range(1 + nr, 2 + nr + rng.choice([0, 0, 1])):
+        th.append([{"op": "store", "c": 0, "v": new()} for _ in range(rng.randrange(2, 5))])
+    return prog_with_setup(rng, th, strategy=rng.choice(["default", "default", "nofast"]), reuse="lifo", pnull=0.0)
+
+
 FAMILIES = {
+    "aba": fam_aba,
     "panic_help": fam_panic_help,
     "rw": fam_rw2,
     "cas": fam_cas,
